@@ -92,7 +92,7 @@ prop("C12", NEC + "Clauses: an entry's name range is resolved against the token 
      "LookupTable built from that procedure (SCOPE-ORDER); locations only for user declarations (ENTRY-GUARD) and "
      "is_default() never holds for locals (ENTRY-KIND); lookups are never unwrapped (LOOKUP-NOPANIC).",
      [{"rule": "FRAME", "filter": files("goto.rs", "features.rs", "table.rs"), "floor": 16},
-      {"rule": "SCOPE-ORDER", "floor": 9}, {"rule": "ENTRY-GUARD", "floor": 6}, {"rule": "ENTRY-KIND", "floor": 4},
+      {"rule": "SCOPE-ORDER", "floor": 17}, {"rule": "ENTRY-GUARD", "floor": 6}, {"rule": "ENTRY-KIND", "floor": 4},
       {"rule": "LOOKUP-NOPANIC", "floor": 14}])
 
 prop("C13", NEC + "Clauses: the finder walkers descend into every statement/expression/type shape that can contain what "
@@ -101,13 +101,13 @@ prop("C13", NEC + "Clauses: the finder walkers descend into every statement/expr
      "(SCOPE-ORDER).",
      [{"rule": "TRAVERSE", "filter": tag("vars", "calls", "types"), "floor": 51},
       {"rule": "FRAME", "filter": files("references.rs"), "floor": 56}, {"rule": "SAME-FINDER", "floor": 3},
-      {"rule": "SCOPE-ORDER", "floor": 9}])
+      {"rule": "SCOPE-ORDER", "floor": 17}])
 
 prop("C14", NEC + "Clauses: the call statement is located with node, origin and token slice in one frame on every step of "
      "the descent (FRAME in signature_help.rs) through every statement shape that can contain a call (TRAVERSE); hover "
      "resolves local-then-global (SCOPE-ORDER).",
      [{"rule": "FRAME", "filter": files("signature_help.rs"), "floor": 8},
-      {"rule": "TRAVERSE", "filter": tag("calls"), "floor": 18}, {"rule": "SCOPE-ORDER", "floor": 9}])
+      {"rule": "TRAVERSE", "filter": tag("calls"), "floor": 18}, {"rule": "SCOPE-ORDER", "floor": 17}])
 
 prop("C15", NEC + "Clauses: legend order = enum discriminants (T6); token positions of different units/frames are not "
      "compared and declaration slices are cut in the right frame (FRAME in semantic_tokens.rs); token lengths are UTF-16 "
@@ -117,7 +117,7 @@ prop("C15", NEC + "Clauses: legend order = enum discriminants (T6); token positi
 
 prop("C16", NEC + "Clauses: every token slice / node pair that drives the position classification is in one frame (FRAME "
      "in completion.rs); variables are proposed from the LookupTable of the procedure that contains the cursor (SCOPE-ORDER).",
-     [{"rule": "FRAME", "filter": files("completion.rs"), "floor": 18}, {"rule": "SCOPE-ORDER", "floor": 9}])
+     [{"rule": "FRAME", "filter": files("completion.rs"), "floor": 18}, {"rule": "SCOPE-ORDER", "floor": 17}])
 
 prop("C17", NEC + "Clause: the procedure's token range is made absolute with the offset of the Reference it was reached "
      "through before the token vector is sliced (FRAME in fold.rs); the lines reported come from as_pos_range of the "
